@@ -6,6 +6,7 @@ use crate::ctx::{hex_short, lc, Case, Ctx};
 use crate::gen;
 use crate::oracle::{classify, is_window, Out};
 use crate::refenc::{self, AHs, AMsg};
+use crate::rng::Rng;
 use crate::visit::veq;
 use serde_json::json;
 use tls_parser::*;
@@ -242,6 +243,65 @@ pub fn run(ctx: &mut Ctx) {
         }
     });
     ctx.mark_exhaustive("all 256x256 (level, description) alerts as single-message records");
+
+    // ------------------------------------------------ a complete record at the start of a buffer of about 2^31 / 2^32 bytes (lazily
+    // mapped zero pages): the number of bytes AFTER the record is 2^32 - k and 2^31 - k for every k around the
+    // payload length, 2^32 and 2^32 + k. One-step and two-step parsing must still agree and return the messages
+    // (availability computed in 32 bits would see a complete record as cut short)
+    ctx.floor("giant-trailing.cases", 400);
+    ctx.sweep("giant-trailing-one-step-two-step", 5, |ctx, idx| {
+        let mut r = Rng::new(idx ^ 0x61A27);
+        let (ct, msgs): (u8, Vec<AMsg>) = match idx {
+            0 => (0x14, vec![AMsg::Ccs]),
+            1 => (0x15, vec![AMsg::Alert(1, 0), AMsg::Alert(2, 40)]),
+            2 => (0x16, vec![AMsg::Hs(AHs::ServerDone(vec![])), AMsg::Hs(AHs::Finished(r.bytes(12)))]),
+            3 => (0x17, vec![AMsg::App(r.bytes(100))]),
+            _ => (0x18, vec![AMsg::Heartbeat { ty: 1, payload: r.bytes(7), padding: r.bytes(16) }]),
+        };
+        // (two-step parsing hands heartbeat padding back as remainder of the payload: not judged here)
+        let payload = refenc::msgs_payload(&msgs);
+        let rec = refenc::record(ct, 0x0303, &payload);
+        let n = payload.len();
+        let mut buf = match gen::lazy_zeroed((1usize << 32) + 4096) {
+            Some(b) => b,
+            None => {
+                ctx.unjudged("giant-buffer-not-allocatable");
+                return;
+            }
+        };
+        buf[..rec.len()].copy_from_slice(&rec);
+        let exp: Vec<TlsMessage> = msgs.iter().map(|m| m.expected()).collect();
+        let mut trailing: Vec<usize> = Vec::new();
+        for base in [1usize << 31, 1usize << 32] {
+            for k in 0..=(n + 6) {
+                trailing.push(base - k);
+                trailing.push(base + k);
+            }
+            trailing.push(base - 65536);
+            trailing.push(base - 65535);
+        }
+        for t in trailing {
+            let total = rec.len() + t;
+            if total > buf.len() {
+                continue;
+            }
+            let input = &buf[..total];
+            ctx.evals(2);
+            ctx.count("giant-trailing.cases");
+            let one = parse_tls_plaintext(input);
+            let ok1 = matches!(&one, Ok((rem, p)) if rem.len() == t && rem.as_ptr() == input[rec.len()..].as_ptr() && veq(&p.msg, &exp));
+            let two = parse_tls_raw_record(input).and_then(|(rem, raw)| parse_tls_record_with_header(raw.data, &raw.hdr).map(|(r2, m)| (rem, r2, m)));
+            let ok2 = matches!(&two, Ok((rem, r2, m)) if rem.len() == t && (r2.is_empty() || ct == 0x18) && veq(m, &exp));
+            if !(ok1 && ok2) {
+                ctx.violation(
+                    format!("c03:giant-trailing:{}:ct=0x{:02x}", if !ok1 { "one-step" } else { "two-step-disagrees" }, ct),
+                    json!({"content_type": ct, "payload_len": n, "bytes_after_the_record": t, "one_step": classify(&one).show(), "two_step": format!("{:.160?}", two.as_ref().map(|x| (x.0.len(), x.1.len(), x.2.len(), veq(&x.2, &exp))).map_err(|e| format!("{:.100?}", e)))}),
+                );
+                return;
+            }
+        }
+        ctx.shape(&("giant-trailing", ct));
+    });
 
     // ------------------------------------------------ generated lists + predictable tails
     let n = ctx.tier.pick(160000, 1600000);
